@@ -17,13 +17,15 @@
 //          K257   as b with 257 (sometimes 300/1000) characters      Kup   s with one upper-case letter
 //          Kempty ""        Kill  s with one of  ' ' = , . : ! " \ + % ( ; TAB LF 0x01 0x7f  after the 1st char
 //          Kat    "@x", "x@", "a@b@c"    Kmt15 tenant '@' system of 15    Kmt242 tenant of 242 '@' system
-//          K8bit  s with a byte >= 0x80
+//          K8bit  s with a byte 0x80..0xff after the 1st char      KctlFirst / K8bitFirst  1-2 bytes of {0x00-0x08,
+//          0x0e-0x1f, 0x7f} / {0x80-0xff} BEFORE a simple key (first byte of the member in a header)
 //   values s      'v' n ':' tail(0..12 printable, no blank , =)       sp  with leading / inner blanks
 //          b      padded to exactly 256                                x   'v' n ':' punctuation
 //          Vtrail s + 1..3 trailing blanks   Vcomma / Veq  with ',' / '='   V257 257 characters   Vempty ""
-//          Vctl   control character (0x01 TAB LF 0x7f) in the middle    V8bit byte >= 0x80 in the middle
+//          Vctl   any C0 control / DEL in the middle    V8bit any byte 0x80..0xff in the middle
+//          VctlLast / V8bitLast  value ENDING in 1-2 such bytes (non-isspace controls; last byte of the member)
 //   header tokens: kv -> key '=' value, ows sp/tab/both -> blanks around the member, empty -> "" or blanks,
-//          noeq -> a word without '='; members joined with ','.
+//          noeq -> a word without '='; junk -> 1-3 illegal bytes only; members joined with ','.
 // Related keys: `inst % 3` selects how the VALID keys of one behaviour relate to each other (independent /
 // prefix chain / same length differing in the last characters), see struct Conc.
 // Every string handed to the API lives in an exactly-sized heap buffer without NUL terminator that is
@@ -103,6 +105,20 @@ static std::string VCHR()  // printable, no blank , =
   return s;
 }
 static const std::string NBLK = VCHR();
+// illegal bytes by class: CTLNS = C0 controls that are NOT C isspace() bytes (HT LF VT FF CR at the border of a
+// member are optional white space for the current code - a don't-care) + DEL; CTLALL = every C0 control + DEL
+// (used mid-token only); HI = every byte 0x80..0xff
+static std::string byte_range(int lo, int hi, bool skip_space)
+{
+  std::string s;
+  for (int c = lo; c <= hi; ++c)
+    if (!(skip_space && c >= 0x09 && c <= 0x0d))
+      s.push_back((char)c);
+  return s;
+}
+static const std::string CTLNS  = byte_range(0x00, 0x1f, true) + std::string(1, '\x7f');
+static const std::string CTLALL = byte_range(0x00, 0x1f, false) + std::string(1, '\x7f');
+static const std::string HI     = byte_range(0x80, 0xff, false);
 static const std::string PUNCT = "!\"#$%&'()*+-./:;<>?@[\\]^_`{|}~";
 
 struct Conc
@@ -237,8 +253,12 @@ struct Conc
     else if (c == "K8bit")
     {
       s = simple(8);
-      static const std::string hi("\x80\xc3\xa9\xff\xe2", 5);
-      s.insert(1 + r.below(s.size()), 1, r.pick(hi));
+      s.insert(1 + r.below(s.size()), 1, r.pick(HI));
+    }
+    else if (c == "KctlFirst" || c == "K8bitFirst")
+    {
+      // the illegal byte is the FIRST byte of the key (= first byte of the list member in a header)
+      s = std::string(1 + r.below(2), r.pick(c == "KctlFirst" ? CTLNS : HI)) + simple(8);
     }
     else
       s = "?unknown-key-class?";
@@ -288,9 +308,12 @@ struct Conc
     else if (c == "Vctl" || c == "V8bit")
     {
       s = pre + tail(r, 2 + r.below(6), NBLK);
-      static const std::string ctl("\x01\t\n\x7f\x1f", 5);
-      static const std::string hi("\x80\xc3\xa9\xff", 4);
-      s.insert(pre.size() + 1 + r.below(s.size() - pre.size() - 1), 1, r.pick(c == "Vctl" ? ctl : hi));
+      s.insert(pre.size() + 1 + r.below(s.size() - pre.size() - 1), 1, r.pick(c == "Vctl" ? CTLALL : HI));
+    }
+    else if (c == "VctlLast" || c == "V8bitLast")
+    {
+      // the illegal byte is the LAST byte of the value (= last byte of the list member in a header)
+      s = pre + tail(r, r.below(6), NBLK) + std::string(1 + r.below(2), r.pick(c == "VctlLast" ? CTLNS : HI));
     }
     else
       s = "?unknown-value-class?";
@@ -331,6 +354,8 @@ struct Conc
         h += pre + key(t["k"]) + "=" + val(t["v"]) + post;
       else if (kind == "noeq")
         h += pre + "noeq" + tail(r, r.below(5), REST) + post;
+      else if (kind == "junk")  // a member made only of illegal bytes
+        h += tail(r, 1 + r.below(3), r.coin(50) ? CTLNS : HI);
       else  // empty
         h += pre;
     }
@@ -590,10 +615,10 @@ static int replay(const char *path)
 static int record(uint64_t seed, int nexec, int len)
 {
   static const char *VK[] = {"s", "s", "s", "m", "b", "bm"};
-  static const char *IK[] = {"K257", "Kup", "Kempty", "Kill", "Kat", "Kmt15", "Kmt242", "K8bit"};
+  static const char *IK[] = {"K257", "Kup", "Kempty", "Kill", "Kat", "Kmt15", "Kmt242", "K8bit", "KctlFirst", "K8bitFirst"};
   static const char *VV[] = {"s", "s", "sp", "b", "x"};
-  static const char *IV[] = {"Vtrail", "Vcomma", "Veq", "V257", "Vempty", "Vctl", "V8bit"};
-  static const char *HIV[] = {"Veq", "V257", "Vempty", "Vctl", "V8bit"};
+  static const char *IV[] = {"Vtrail", "Vcomma", "Veq", "V257", "Vempty", "Vctl", "V8bit", "VctlLast", "V8bitLast"};
+  static const char *HIV[] = {"Veq", "V257", "Vempty", "Vctl", "V8bit", "VctlLast", "V8bitLast"};
   for (int x = 0; x < nexec; ++x)
   {
     Rng r(seed * 1000003ull + x);
@@ -614,7 +639,7 @@ static int record(uint64_t seed, int nexec, int len)
       if (valid && r.coin(50))
         return vpool[r.below(vpool.size())];
       ++vcount;
-      return json::array({valid ? VV[r.below(5)] : IV[r.below(7)], 1000 + vcount});
+      return json::array({valid ? VV[r.below(5)] : IV[r.below(9)], 1000 + vcount});
     };
     std::vector<TsPtr> objs;
     auto obs = [&](size_t o) {
@@ -641,11 +666,13 @@ static int record(uint64_t seed, int nexec, int len)
           toks.insert(toks.begin() + r.below(n + 1),
                       json({{"t", "empty"}, {"k", {"none", 0}}, {"v", {"none", 0}}, {"ows", r.coin(50) ? "none" : "sp"}}));
         else if (mut == 2 && n)
-          toks[r.below(n)] = {{"t", "noeq"}, {"k", {"none", 0}}, {"v", {"none", 0}}, {"ows", "none"}};
+          toks[r.below(n)] = {{"t", r.coin(50) ? "noeq" : "junk"}, {"k", {"none", 0}}, {"v", {"none", 0}}, {"ows", "none"}};
+        else if (mut == 5)
+          toks.insert(toks.begin() + r.below(n + 1), json({{"t", "junk"}, {"k", {"none", 0}}, {"v", {"none", 0}}, {"ows", "none"}}));
         else if (mut == 3 && n)
-          toks[r.below(n)]["k"] = json::array({IK[r.below(8)], 900 + s});
+          toks[r.below(n)]["k"] = json::array({IK[r.below(10)], 900 + s});
         else if (mut == 4 && n)
-          toks[r.below(n)]["v"] = json::array({HIV[r.below(5)], 900 + s});
+          toks[r.below(n)]["v"] = json::array({HIV[r.below(7)], 900 + s});
         std::string hdr = cz.header(toks, r);
         TsPtr nw;
         {
@@ -671,7 +698,7 @@ static int record(uint64_t seed, int nexec, int len)
       if (kind < 55)
       {
         bool badk = r.coin(5), badv = r.coin(5);
-        json k = badk ? json::array({IK[r.below(8)], 900 + s}) : some_key(45);
+        json k = badk ? json::array({IK[r.below(10)], 900 + s}) : some_key(45);
         json v = fresh_val(!badv);
         if (!badk && !badv && r.coin(25))
         {
@@ -695,7 +722,7 @@ static int record(uint64_t seed, int nexec, int len)
       }
       else if (kind < 72)
       {
-        json k = r.coin(6) ? json::array({IK[r.below(8)], 900 + s}) : some_key(70);
+        json k = r.coin(6) ? json::array({IK[r.below(10)], 900 + s}) : some_key(70);
         TsPtr nw;
         {
           Buf kb(cz.key(k));
@@ -706,7 +733,7 @@ static int record(uint64_t seed, int nexec, int len)
       }
       else if (kind < 90)
       {
-        json k = r.coin(8) ? json::array({IK[r.below(8)], 900 + s}) : some_key(70);
+        json k = r.coin(8) ? json::array({IK[r.below(10)], 900 + s}) : some_key(70);
         std::string v;
         bool found = do_get(objs[o], cz.key(k), v);
         json av    = json::array({"none", 0});
